@@ -17,8 +17,11 @@
 //!              key's name or algorithm, changed ID) → the outcome RFC 8945
 //!              assigns, on the server, the client transaction and the client
 //!              sequence (first and later message).
-//! * `wrappers` `net::server::middleware::tsig` around a mock service and
-//!              `net::client::tsig::Connection` over a mock upstream.
+//! * `wrappers` `net::server::middleware::tsig` around a mock service,
+//!              `net::client::tsig::Connection` over a mock upstream (which
+//!              composes the request several times, like a retransmitting
+//!              transport) and over the real `net::client::dgram::Connection`
+//!              on a fake network that loses datagrams.
 use crate::engine::*;
 use std::collections::BTreeMap;
 
@@ -87,6 +90,11 @@ const NEEDED: &[&str] = &[
     "genuine-answer-after-rejected-answer-verified",
     "second-rejected-message-before-first-answer",
     "history-continues-after-rejected-first",
+    "sequence-answer-after-failed-push",
+    "client-wrapper/answer-to-last-of-several-compositions",
+    "client-wrapper/answer-to-earlier-composition",
+    "dgram-transport/verified-after-retransmission",
+    "dgram-transport/rejected",
     "middleware-exchange-verified",
     "client-wrapper/verified",
     "client-wrapper/rejected",
